@@ -2,7 +2,7 @@
     Main.v / Model/Fortran.v and followed by Print Assumptions. *)
 From Coq Require Import Ascii String List Bool ZArith NArith.
 From PTBase Require Import Exn PyStr PyNum PyVal.
-From PTModel Require Import Fortran.
+From PTModel Require Import Fortran FortranNF FortranRender.
 From Gen Require Import GenFortran.
 From P Require Import Spec Main.
 Import ListNotations.
@@ -51,3 +51,27 @@ Print Assumptions bad_char_gives_none.
 Theorem float_accepts_only_numeric : forall s v, py_float_opt s = Some v -> forallb numeric_char s = true.
 Proof. exact float_accepts_numeric. Qed.
 Print Assumptions float_accepts_only_numeric.
+
+(** float() is case-insensitive and accepts neither a blank nor a d inside the stripped text:
+    whatever it accepts, it accepts in normalised form with the same value *)
+Theorem float_accepts_normalised : forall s v, py_float_opt s = Some v -> py_float_opt (norm (strip s)) = Some v.
+Proof. exact float_accepts_norm. Qed.
+Print Assumptions float_accepts_normalised.
+(** NORMAL FORM: for every non-blank text the reader's result is the cascade on
+    norm (strip s) = lower case, d -> e, all blanks removed *)
+Theorem fortran_float_normal_form : forall s bv, strip s <> [] ->
+  gen_fortran_float (VStr s) bv = Ok (VFloat (cascade (norm (strip s)))).
+Proof. exact ff_nf. Qed.
+Print Assumptions fortran_float_normal_form.
+(** hence blanks inside the field are ignored, D/d means E, case does not matter *)
+Theorem fortran_float_ignores_blanks_case_and_D : forall s s' bv, strip s <> [] -> strip s' <> [] ->
+  norm (strip s) = norm (strip s') -> gen_fortran_float (VStr s) bv = gen_fortran_float (VStr s') bv.
+Proof. exact ff_norm_only. Qed.
+Print Assumptions fortran_float_ignores_blanks_case_and_D.
+(** RENDERINGS: every text whose normal form is  sign? digits? . digits?  followed by nothing,
+    by e sign? digits, or by a bare signed exponent (letter dropped) is read as that real:
+    any number of mantissa digits, any exponent, any padding / embedded blanks / case / D *)
+Theorem fortran_float_renderings : forall s bv sg ip fp x, wf_mant ip fp -> wf_expo x -> strip s <> [] ->
+  norm (strip s) = canon sg ip fp x -> gen_fortran_float (VStr s) bv = Ok (VFloat (canon_value sg ip fp x)).
+Proof. exact ff_renderings. Qed.
+Print Assumptions fortran_float_renderings.
